@@ -316,6 +316,7 @@ def run(ck: Checker):
                 continue
             probs = ct.check_template(t, n, cnf)
             ck.check(not probs, 'C01.SEM-SIB', hmod, hmod.func(hname), f'CNF template of {t}/{n} denotes {t}', '; '.join(probs[:2]), construct=cons)
+    ct.check_repeats(ck, table, 'C01.SEM-SIB')
     # bench rewrites (function only; index/blocks are C14's)
     check_rewrites(ck, den, 'C01')
     # in C01 mode check_rewrites records only failures under C01.TPL; count the converters as instances
